@@ -146,6 +146,91 @@ def sort_eigenvalue(report):
 
 
 def argsort_fn(report, valid_rules):
+    """Canonical extraction (loop contract on the BothEnds interleave); if the function was restructured so that the canonical rules no longer
+    apply, a generalized extraction is tried: any named / temporary SortEigenvalue object, any std::vector<Index> copy, and the fill loop - whose
+    iterations must be independent (each writes exactly ind[i], none reads ind) - summarised by executing its body at the two Skolem positions.
+    Groups built from the generalized text are marked weak: a refutation counts only if it replays on the real code."""
+    try:
+        t = _argsort_canonical(report, valid_rules)
+        report["argsort_form"] = "canonical"
+        return t, None
+    except X.ExtractionBreak as e:
+        report["argsort_canonical_break"] = str(e)
+    t = _argsort_generalized(report)
+    report["argsort_form"] = "generalized"
+    return t, "argsort restructured: generalized rules, fill loop summarised at the Skolem positions, sort facts instantiated only at the specified source positions"
+
+
+GEN_HELPERS = r'''
+static IndexArray SortEigenvalue_index_of(SortRule r, const Value *v, Index n)
+{ SortEigenvalue t; t.rule = r; t.m_index.data = NULL; t.m_index.size = 0; SortEigenvalue_ctor(&t, v, n); return IndexArray_copy(t.m_index); }
+static IndexArray IndexArray_sized(Index n) { IndexArray a; a.size = n; a.data = malloc(n * sizeof(Index)); __CPROVER_assume(a.data != NULL); return a; }
+'''
+
+
+def _argsort_generalized(report):
+    f = X.locate(H, "argsort", params_re=r"Eigen::Index\s+len")
+    names = set(["ind"])
+
+    def post(b, R):
+        b = R.sub("g:vector-decl", r"std::vector<Index>\s+ind\s*;", "IndexArray ind; ind.data = NULL; ind.size = 0;", b, min_fires=1, max_fires=1)
+        b = R.sub("g:sorter-temp", r"SortEigenvalue<\s*Scalar\s*,\s*SortRule_(\w+)\s*>\(values\.data\(\),\s*len\)\.index\(\)", r"SortEigenvalue_index_of(SortRule_\1, values, len)", b)
+
+        def named(m):
+            names.add(m.group(2) + ".m_index")
+            return "SortEigenvalue %s; %s.rule = SortRule_%s; %s.m_index.data = NULL; %s.m_index.size = 0; SortEigenvalue_ctor(&%s, values, len);" % ((m.group(2),) * 2 + (m.group(1),) + (m.group(2),) * 3)
+        b = R.sub("g:sorter", r"(?:const\s+)?SortEigenvalue<\s*Scalar\s*,\s*SortRule_(\w+)\s*>\s+(\w+)\(values\.data\(\),\s*len\);", named, b)
+        b = R.sub("g:swap", r"\b(\w+)\.swap\(ind\);", r"ind = \1.m_index;", b)
+        b = R.sub("g:index-call", r"\b(\w+)\.index\(\)", r"IndexArray_copy(\1.m_index)", b)
+
+        def vcopy(m):
+            names.add(m.group(1))
+            return "IndexArray %s = IndexArray_copy(%s);" % (m.group(1), m.group(2))
+        b = R.sub("g:vector-copy", r"(?:const\s+)?std::vector<Index>\s+(\w+)\((\w+)\);", vcopy, b)
+
+        def vinit(m):
+            names.add(m.group(1))
+            return "IndexArray %s = %s;" % (m.group(1), m.group(2))
+        b = R.sub("g:vector-init", r"(?:const\s+)?std::vector<Index>\s+(\w+)\s*=\s*([^;]+);", vinit, b)
+        b = R.sub("g:resize", r"\bind\.resize\(([^;()]+)\);", r"ind = IndexArray_sized(\1);", b)
+        for nm in sorted(names, key=len, reverse=True):
+            b = re.sub(r"(?<![\w.])%s\[" % re.escape(nm), nm + ".data[", b)
+        if re.search(r"std::|SortEigenvalue<", b):
+            raise X.ExtractionBreak("argsort (generalized): an unrecognised construct remains: %r" % re.search(r".{0,40}(std::|SortEigenvalue<).{0,40}", b, re.S).group(0))
+        # summarise the fill loop
+        loops = list(re.finditer(r"\bfor\s*\(Index (\w+) = 0; \1 < len; (?:\1\+\+|\+\+\1)\)", b))
+        if len(loops) != 1:
+            raise X.ExtractionBreak("argsort (generalized): expected exactly one fill loop `for (Index i = 0; i < len; i++)`, found %d" % len(loops))
+        m = loops[0]
+        iv = m.group(1)
+        k = m.end()
+        while b[k] in " \t\n":
+            k += 1
+        if b[k] == "{":
+            e = X.match_close(b, k)
+            body = b[k + 1:e]
+            end = e + 1
+        else:
+            e = b.index(";", k)
+            body = b[k:e + 1]
+            end = e + 1
+        writes = re.findall(r"\bind\.data\[([^\]]+)\]\s*=(?!=)", body)
+        if not writes or any(w.strip() != iv for w in writes) or len(re.findall(r"\bind\.data\[", body)) != len(writes) or re.search(r"\b%s\s*(\+\+|--|[-+*/]?=(?!=))" % iv, body):
+            raise X.ExtractionBreak("argsort (generalized): iterations of the fill loop are not independent (each must write exactly ind[i] and read no ind[.])")
+        body2 = re.sub(r"\bind\.data\[", "verif_out.data[", body)
+        summ = ("{ IndexArray verif_out = IndexArray_sized(ind.size); /* loop summary: independent iterations, executed at the two Skolem positions */ "
+                "if (0 <= gq1 && gq1 < len) { const Index %s = gq1; %s } if (0 <= gq2 && gq2 < len) { const Index %s = gq2; %s } ind = verif_out; }" % (iv, body2, iv, body2))
+        summ = " ".join(summ.split("\n")) + "\n" * b[m.start():end].count("\n")
+        return b[:m.start()] + summ + b[end:]
+    t, R = cgen.emit(f, "argsort", ret_c="IndexArray", param_types={"values": "const Value *", "len": "Index"}, post_fn=post, contract="")
+    report["argsort(generalized)"] = R.fired
+    g = X.locate(H, "argsort", ordinal=1)
+    if not re.search(r"return\s+argsort<Scalar>\(selection,\s*values,\s*values\.size\(\)\);", g.body):
+        raise X.ExtractionBreak("argsort(selection, values) no longer forwards to argsort(selection, values, values.size())")
+    return GEN_HELPERS + t
+
+
+def _argsort_canonical(report, valid_rules):
     f = X.locate(H, "argsort", params_re=r"Eigen::Index\s+len")
     n_cases = len(re.findall(r"SortEigenvalue<\s*Scalar\s*,\s*SortRule::\w+\s*>", f.body))
     t, R = cgen.emit(f, "argsort", ret_c="IndexArray", param_types={"values": "const Value *", "len": "Index"},
@@ -373,7 +458,7 @@ def build(tier):
                             functions=["SelectionRule.h:SortEigenvalue::SortEigenvalue"], expect_classes=["ctor.order", "loop_invariant_step"],
                             note="same ordering clause stated on the caller's array (the form assumed at call sites)"))
         if kind == "real":
-            t_arg = argsort_fn(report, valid)
+            t_arg, weak = argsort_fn(report, valid)
             for r in allrules:
                 groups.append(Group("argsort.%s" % r, pre + table + t_less + LESS_WITH + COPY_STUB +
                                     "void SortEigenvalue_ctor(SortEigenvalue *self, const Value *start, Index size)" +
@@ -381,8 +466,9 @@ def build(tier):
                                     "h_argsort", replace=["SortEigenvalue_ctor"], solver="cadical",
                                     defines=["SCALAR_FLOAT", "RULE_UNDER_TEST=SortRule_" + r], timeout=300,
                                     functions=["SelectionRule.h:argsort(selection, values, len)"],
-                                    expect_classes=["argsort", "loop_invariant_step"],
-                                    note="callee SortEigenvalue ctor replaced by its proved contract; BothEnds loop under a loop contract"))
+                                    expect_classes=["argsort"] + ([] if weak else ["loop_invariant_step"]),
+                                    note="callee SortEigenvalue ctor replaced by its proved contract; BothEnds loop under a loop contract" if not weak else "WEAKENED extraction: " + weak))
+                groups[-1].weak = weak
     groups.append(Group("bothends.map", '#include "verif_prelude.h"\n#define MAXLEN 1048576\n#define PMAP(i, len) (((i) % 2 == 0) ? (i) / 2 : (len) - 1 - (i) / 2)\n' + H_MAP, "h_bothends_map", loop_contracts=False,
                         solver="cadical", functions=["SelectionRule.h:argsort (BothEnds index map)"], expect_classes=["bothends.map"],
                         note="index map of the BothEnds loop: bijection and first-k characterisation for every k"))
